@@ -98,6 +98,8 @@ class Paths:
                     res['normal'] = [t + (('assume', s.test, True),) for t in n]
         elif isinstance(s, ast.Return):
             n, r = self.expr(s, traces) if s.value is not None else (traces, [])
+            if self.dataflow:
+                n = [t + (('return', s.value),) for t in n]
             res['return'], res['raise'] = n, r
         elif isinstance(s, ast.Raise):
             n, r = self.expr(s, traces)
@@ -181,6 +183,44 @@ class Paths:
         b = self.block(fnode.body, [()])
         outs = [('return', t) for t in b['normal'] + b['return']] + [('raise', t) for t in b['raise']]
         return outs
+
+
+def consistent(trace):
+    """Drop paths that take contradictory branches on the SAME test (or on a flag set to a constant) with nothing assigned in
+    between: `if short_if: ... if not short_if:`, `in_parens = True ... if in_parens:`.  Sound: only infeasible paths are dropped."""
+    known = {}
+    for e in trace:
+        if e[0] == 'assign':
+            names = {n.id for n in ast.walk(e[1]) if isinstance(n, ast.Name)} | {ast.unparse(e[1])}
+            for k in list(known):
+                if any(nm in k[1] for nm in names):
+                    del known[k]
+            if isinstance(e[1], ast.Name) and isinstance(e[2], ast.Constant) and isinstance(e[2].value, bool):
+                known[('t', frozenset([e[1].id]), e[1].id)] = e[2].value
+        elif e[0] == 'iterate':
+            names = {n.id for n in ast.walk(e[1]) if isinstance(n, ast.Name)}
+            for k in list(known):
+                if any(nm in k[1] for nm in names):
+                    del known[k]
+        elif e[0] == 'assume':
+            test, pol = e[1], e[2]
+            while isinstance(test, ast.UnaryOp) and isinstance(test.op, ast.Not):
+                test, pol = test.operand, not pol
+            if any(isinstance(n, ast.Call) for n in ast.walk(test)) and not ast.unparse(test).startswith("self._args.get('ignore_tokens')"):
+                continue                      # calls may have effects: not correlated (the ignore_tokens option is constant)
+            if isinstance(test, ast.Compare) and len(test.ops) == 1 and isinstance(test.ops[0], (ast.Is, ast.IsNot)) and \
+                    isinstance(test.left, ast.Name) and isinstance(test.comparators[0], ast.Constant) and test.comparators[0].value is None:
+                # `v is None` and `v is not None` are the same question
+                if isinstance(test.ops[0], ast.IsNot):
+                    pol = not pol
+                test = ast.parse('%s is None' % test.left.id, mode='eval').body
+            names = frozenset(n.id for n in ast.walk(test) if isinstance(n, ast.Name)) | frozenset([ast.unparse(test)])
+            key = ('t', names, ast.unparse(test))
+            if key in known and known[key] != pol:
+                return False
+            known[key] = pol
+    return True
+
 
 
 WRITE_PRIMITIVES = ('os.remove', 'os.unlink', 'os.rename', 'os.replace', 'os.truncate', 'os.rmdir', 'os.removedirs',
